@@ -634,6 +634,8 @@ class Engine:
                 r = z3.BoolVal(a.oid == b.oid)
             elif isinstance(a, Val) and isinstance(b, Val) and a.ty == BOOL and b.ty == BOOL:
                 r = a.term == b.term
+            elif isinstance(a, Val) and isinstance(b, Val) and a.ty == b.ty and isinstance(a.ty, (Atom, Enum)):
+                r = a.term == b.term          # opaque objects / enum members: identity is equality of the abstract value
             else:
                 raise Unsupported("`is` on non-None values")
             return r if isinstance(op, ast.Is) else z3.Not(r)
@@ -911,7 +913,7 @@ class Engine:
                 ty = base.ty
                 kterm = coerce(lv[2], ty.key).term
                 self.note_card_map_store(st, base, kterm)
-                self.write_lv(st, lv[1], Val(z3.Store(base.term, kterm, ty.opt.some(coerce(val, ty.val).term)), ty))
+                self.write_lv(st, lv[1], Val(z3.Store(base.term, kterm, ty.opt.some(self.need(st, val, ty.val).term)), ty))
             else:
                 raise Unsupported(f"subscript store on {base!r}")
         else:
